@@ -6,6 +6,7 @@ pub mod c08;
 pub mod c10;
 pub mod c11;
 pub mod c16;
+pub mod c17;
 
 use crate::runner::Scenario;
 
@@ -13,6 +14,7 @@ pub fn scenario(id: &str) -> Option<Box<dyn Scenario>> {
     Some(match id {
         "C01" => Box::new(c01::C01),
         "C16" => Box::new(c16::C16),
+        "C17" => Box::new(c17::C17),
         "C11" => Box::new(c11::C11),
         "C14" => Box::new(c11::C14),
         "C08" => Box::new(c08::C08),
@@ -30,4 +32,4 @@ pub fn scenario(id: &str) -> Option<Box<dyn Scenario>> {
     })
 }
 
-pub const ALL: [&str; 2] = ["C01", "C16"];
+pub const ALL: [&str; 16] = ["C01", "C02", "C03", "C04", "C05", "C06", "C07", "C08", "C09", "C10", "C11", "C12", "C13", "C14", "C16", "C17"];
